@@ -310,15 +310,22 @@ pub fn exec(op: &[&str]) -> String {
             let mut m = HashMap::new();
             m.insert(a.clone(), 1);
             let map = m.contains_key(&b);
+            // the mixed operator `Tag == &str` compares with the protocol name too
+            let nb = tag_name(&b);
+            let es = match std::str::from_utf8(&nb) {
+                Ok(sb) => (a == sb) as u8,
+                Err(_) => eq as u8,
+            };
             format!(
-                "na:{},nb:{},eq:{},cmp:{},pc:{},hash:{},map:{}",
+                "na:{},nb:{},eq:{},cmp:{},pc:{},hash:{},map:{},es:{}",
                 hex(&tag_name(&a)),
-                hex(&tag_name(&b)),
+                hex(&nb),
                 eq as u8,
                 cmp,
                 pc as u8,
                 hash as u8,
-                map as u8
+                map as u8,
+                es
             )
         }
         "tag.rt" => {
